@@ -247,6 +247,8 @@ class find_clashes:
         "forall(lambda a, p: implies(selpos(residues, nucleic_acid_only, a, p), char(residues[a].atoms[p].name, 0) == char(residues[a].atoms[p].name.strip(), 0)))",
     ]
     returns = "list[tuple[tuple[Residue3D,Atom],tuple[Residue3D,Atom],real]]"
+    # the ghost lists the postcondition is stated with, for callers (clashfinder_main_c.main): exists GA, GP, KI, KJ. ensures
+    ghost_returns = {"GA": "list[int]", "GP": "list[int]", "KI": "list[int]", "KJ": "list[int]"}
     raises = []
     modifies = []
     locals = {"reference_residues": "list[Residue3D]", "reference_atoms": "list[Atom]", "coordinates": "list[vec3]",
